@@ -469,6 +469,15 @@ impl Values {
             }
         }
         jobs.push(("clock shapes: every hour x days 0,1,2,33,34 x microseconds of every decimal shape, as TIME".into(), clk));
+        // the day count of a TIME value is a 32-bit field: intervals far beyond what a TIME column
+        // holds are legal on the wire and must convert exactly (seconds around 2^31, 2^32, 2^33)
+        let mut far = Vec::new();
+        for days in [35u32, 255, 256, 1000, 24_855, 24_856, 49_710, 49_711, 65_535, 65_536, 99_420, 99_421, 100_000, 1 << 24, 1 << 31, u32::MAX - 1, u32::MAX] {
+            for (h, m, sec, us) in [(0u8, 0u8, 0u8, 0u32), (3, 14, 7, 0), (3, 14, 8, 1), (6, 28, 15, 999_999), (6, 28, 16, 0), (23, 59, 59, 123_456)] {
+                far.push(PSem::Time { len: if us == 0 { 8 } else { 12 }, neg: false, days, h, m, s: sec, us });
+            }
+        }
+        jobs.push(("intervals of 35 .. 2^32-1 days (the whole range of the day field), six clock times each, as TIME".into(), far));
         Values { jobs }
     }
 }
@@ -1005,7 +1014,7 @@ pub fn build(quick: bool) -> Check {
     Check {
         id: "C08",
         level: "model_checking",
-        rule: "COM_STMT_EXECUTE parameter blocks built from semantic values by the independent encoder and run through the real run_on; the shim records (type, raw inner value) and applies the documented Into<T> for the corresponding Rust type under catch_unwind. Domains: TINY, SHORT, YEAR exhaustive (signed and unsigned); LONG/INT24/LONGLONG over every 2^k, 2^k+-1 and the bounds; FLOAT/DOUBLE lattices incl. subnormals and infinities; byte strings of every length 0..300 and the length-class edges for all 14 string-like type codes, 65535..65537 (and around 2^24 in thorough), and lengths 0..65536 sent with every legal longer prefix form (0xfc, 0xfd, 0xfe) for six string-like codes in two positions; every legal length form of DATE/DATETIME/TIMESTAMP (0,4,7,11; DATE with a time part raw only) and TIME (0,8,12) over boundary calendar values, every month with its first/28th/last days in five years, every hour x five day counts, microseconds of every decimal shape; negative TIME raw only; all 26 type codes (MYSQL_TYPE_NULL among them) x unsigned in four position classes next to every other type; consecutive executions of one statement binding every ordered pair of (type, unsigned) tables (one parameter: all 52^2, and all 52^2 with the executions alternating between two statements of the same shape - 1:T1, 2:T2, 1:T2, 2:T1; two parameters: all 12^4 over the integer codes, thorough: all 52^4 over every code; triples 12^3), values with the top bit set; parameter counts 0..17, 63, 64, 65, 255, 256, 300, 65529, 65535 (thorough: more around 2^15 and 2^16) with all 2^n NULL bitmaps for n <= 12 (8 in quick) and structured ones above; long-data chunks for two parameters in every arrival order of up to five chunks; inline executions that follow an execution fed by 0..1.2 MB of long data, and the first inline executions of a statement prepared after 0..1.2 MB of another statement's long data was abandoned (CLOSE or re-PREPARE, same or other id); every value of the flags byte x iteration counts {0,1,2,2^32-1} x 5 handshake variants (among them one that mentions every capability the server did not offer). Oracle: exactly n parameters, type = bound code, raw value = encoded value, conversion = encoded value (zero dates and negative TIME have no chrono/Duration form and are checked raw).".into(),
+        rule: "COM_STMT_EXECUTE parameter blocks built from semantic values by the independent encoder and run through the real run_on; the shim records (type, raw inner value) and applies the documented Into<T> for the corresponding Rust type under catch_unwind. Domains: TINY, SHORT, YEAR exhaustive (signed and unsigned); LONG/INT24/LONGLONG over every 2^k, 2^k+-1 and the bounds; FLOAT/DOUBLE lattices incl. subnormals and infinities; byte strings of every length 0..300 and the length-class edges for all 14 string-like type codes, 65535..65537 (and around 2^24 in thorough), and lengths 0..65536 sent with every legal longer prefix form (0xfc, 0xfd, 0xfe) for six string-like codes in two positions; every legal length form of DATE/DATETIME/TIMESTAMP (0,4,7,11; DATE with a time part raw only) and TIME (0,8,12) over boundary calendar values, every month with its first/28th/last days in five years, every hour x five day counts, microseconds of every decimal shape; intervals of 35 .. 2^32-1 days (seconds around 2^31, 2^32, 2^33 and the end of the day field); negative TIME raw only; all 26 type codes (MYSQL_TYPE_NULL among them) x unsigned in four position classes next to every other type; consecutive executions of one statement binding every ordered pair of (type, unsigned) tables (one parameter: all 52^2, and all 52^2 with the executions alternating between two statements of the same shape - 1:T1, 2:T2, 1:T2, 2:T1; two parameters: all 12^4 over the integer codes, thorough: all 52^4 over every code; triples 12^3), values with the top bit set; parameter counts 0..17, 63, 64, 65, 255, 256, 300, 65529, 65535 (thorough: more around 2^15 and 2^16) with all 2^n NULL bitmaps for n <= 12 (8 in quick) and structured ones above; long-data chunks for two parameters in every arrival order of up to five chunks; inline executions that follow an execution fed by 0..1.2 MB of long data, and the first inline executions of a statement prepared after 0..1.2 MB of another statement's long data was abandoned (CLOSE or re-PREPARE, same or other id); every value of the flags byte x iteration counts {0,1,2,2^32-1} x 5 handshake variants (among them one that mentions every capability the server did not offer). Oracle: exactly n parameters, type = bound code, raw value = encoded value, conversion = encoded value (zero dates and negative TIME have no chrono/Duration form and are checked raw).".into(),
         assumptions: vec!["wider integer, float and string domains are covered at lattices".into()],
         bounds: json!({"all_bitmaps_up_to_params": if quick {8} else {12}}),
         exhaustive: true,
